@@ -555,15 +555,16 @@ Qed.
 (* an encoded message is one JSON value at the depth of its domain *)
 Lemma enc_tight d m b : N.succ (N.succ d) <= max_depth -> msg_rt_at d m -> enc_msg m = Some b -> tight_at d b = true.
 Proof.
-  intros Hd Hrt Henc. destruct (enc_msg_fields _ _ Henc) as (eb & -> & He).
+  intros Hd Hrt Henc. destruct (enc_msg_fields _ _ Henc) as (eb & -> & He0).
+  pose proof (enc_fields_rt d m eb Hrt He0) as He. clear He0.
   apply obj_tight_spec; [apply msg_fields_ne | lia | exact (fields_ok string_spec error_codec_spec d m eb Hd Hrt He)].
 Qed.
 
 Lemma enc_all_spec : forall ms bl, enc_all ms = Some bl -> Forall2 (fun m b => enc_msg m = Some b) ms bl.
 Proof.
-  induction ms as [|m ms IH]; intros bl H; cbn [enc_all] in H.
+  induction ms as [|m ms IH]; intros bl H.
   - injection H as <-. constructor.
-  - destruct (enc_msg m) as [b|] eqn:Eb; [|discriminate]. destruct (enc_all ms) as [bl'|] eqn:E; [|discriminate].
+  - rewrite enc_all_cons in H. destruct (enc_msg m) as [b|] eqn:Eb; [|discriminate]. destruct (enc_all ms) as [bl'|] eqn:E; [|discriminate].
     injection H as <-. constructor; [exact Eb | exact (IH _ eq_refl)].
 Qed.
 
@@ -701,4 +702,100 @@ Proof.
   - eexists. split; [vm_compute; reflexivity | vm_compute; reflexivity].
   - eexists. split; [vm_compute; reflexivity | vm_compute; reflexivity].
   - apply deep_req_rt; vm_compute; reflexivity.
+Qed.
+
+(* ------------------------------------------------------------------------- *)
+(* Part G: fix F16/F17 - the encoder of a message never fails; an error whose data are not JSON is
+   written without them *)
+
+Theorem enc_msg_total : forall m, exists b, enc_msg m = Some b.
+Proof.
+  intros m. unfold enc_msg, enc_msg_gen. cbv zeta.
+  destruct (negb (beq (j_method m) [])); [eexists; reflexivity|].
+  destruct (negb (beq (j_result m) [])); [eexists; reflexivity|].
+  destruct (j_error m) as [e|]; [|eexists; reflexivity].
+  fold enc_error. destruct (enc_error_total e) as [eb ->]. eexists; reflexivity.
+Qed.
+
+Lemma enc_all_total : forall ms, exists bl, enc_all ms = Some bl.
+Proof.
+  induction ms as [|m ms [bl IH]]; [exists []; reflexivity|].
+  destruct (enc_msg_total m) as [b Hb]. exists (b :: bl). rewrite enc_all_cons, Hb, IH. reflexivity.
+Qed.
+
+Theorem enc_msgs_total : forall batch ms, exists b, enc_msgs batch ms = Some b.
+Proof.
+  intros batch ms. rewrite enc_msgs_shape. destruct (enc_all_total ms) as [bl Hbl].
+  destruct ms as [|m [|m2 ms2]]; try (rewrite Hbl; eexists; reflexivity).
+  destruct batch; [rewrite Hbl; eexists; reflexivity | apply enc_msg_total].
+Qed.
+
+(* the message is written exactly as if its error had no data *)
+Theorem enc_msg_drops_undeliverable_data : forall m e, j_error m = Some e -> marshal_error e = None ->
+  enc_msg m = enc_msg (set_error (Some (drop_data e)) m).
+Proof.
+  intros m e He Hn. unfold enc_msg, enc_msg_gen, set_error. cbv zeta. cbn [j_id j_method j_params j_result j_error].
+  rewrite He. fold enc_error. rewrite (enc_error_fallback e Hn).
+  assert (Hd : enc_error (drop_data e) = marshal_error (drop_data e)).
+  { destruct (marshal_error_no_data (drop_data e) eq_refl) as [b Hb]. rewrite Hb. exact (enc_error_marshal _ _ Hb). }
+  rewrite Hd. reflexivity.
+Qed.
+
+Lemma canon_drop_data m e : j_error m = Some e -> marshal_error e = None ->
+  canon (set_error (Some (drop_data e)) m) = canon m.
+Proof.
+  intros He Hn. apply marshal_error_none in Hn as [_ Hc].
+  unfold canon, set_error. cbn [j_id j_method j_params j_result j_error j_err]. rewrite He.
+  destruct (negb (beq (j_method m) [])); [reflexivity|].
+  destruct (negb (beq (j_result m) [])); [reflexivity|].
+  unfold drop_data. cbn [we_code we_msg we_data]. rewrite Hc. cbn [beq].
+  destruct (compact []); reflexivity.
+Qed.
+
+(* ... and parses back, under the library's own parser, to the message with the data-less error *)
+Theorem parse_back_undeliverable_data : forall m e b,
+  j_error m = Some e -> marshal_error e = None -> msg_rt (set_error (Some (drop_data e)) m) ->
+  enc_msg m = Some b ->
+  parse_member b = canon m /\ parse_msgs b = InMsgs false [canon m] /\
+  parse_requests b = Parsed [to_parsed (canon m)].
+Proof.
+  intros m e b He Hn Hrt Henc. rewrite (enc_msg_drops_undeliverable_data m e He Hn) in Henc.
+  rewrite <- (canon_drop_data m e He Hn). exact (parse_back _ b Hrt Henc).
+Qed.
+
+(* before the fix: the error response could not be encoded, and a batch that contained it was
+   lost as a whole (finding F17: the well-formed sibling got no reply) *)
+Definition bad_data_err : werr := {| we_code := 7%Z; we_msg := [110; 111]; we_data := [123; 98; 97; 100] |}.
+Definition bad_data_rsp : jmsg :=
+  {| j_id := [50]; j_method := []; j_params := []; j_error := Some bad_data_err; j_result := []; j_err := None |}.
+Definition good_rsp : jmsg :=
+  {| j_id := [49]; j_method := []; j_params := []; j_error := None; j_result := [116; 114; 117; 101]; j_err := None |}.
+
+Lemma encoder_refuted_without_F16 :
+  marshal_error bad_data_err = None /\
+  enc_msg_gen false bad_data_rsp = None /\
+  enc_msgs_gen false true [good_rsp; bad_data_rsp] = None /\
+  (exists b, enc_msgs_gen false true [good_rsp] = Some b) /\
+  (exists b, enc_msgs true [good_rsp; bad_data_rsp] = Some b /\
+             parse_msgs b = InMsgs true [canon good_rsp; canon bad_data_rsp]) /\
+  j_error (canon bad_data_rsp) = Some {| we_code := 7%Z; we_msg := [110; 111]; we_data := [] |}.
+Proof.
+  split; [vm_compute; reflexivity|]. split; [vm_compute; reflexivity|]. split; [vm_compute; reflexivity|].
+  split; [eexists; vm_compute; reflexivity|]. split; [|vm_compute; reflexivity].
+  eexists. split; [vm_compute; reflexivity | vm_compute; reflexivity].
+Qed.
+
+Example parse_back_undeliverable_data_nonvacuous :
+  j_error bad_data_rsp = Some bad_data_err /\ marshal_error bad_data_err = None /\
+  msg_rt (set_error (Some (drop_data bad_data_err)) bad_data_rsp) /\ msg_rt_at 1 (set_error (Some (drop_data bad_data_err)) bad_data_rsp).
+Proof.
+  split; [reflexivity|]. split; [vm_compute; reflexivity|].
+  assert (H : forall d, msg_rt_at d (set_error (Some (drop_data bad_data_err)) bad_data_rsp)).
+  { intros d. constructor.
+    - reflexivity.
+    - right; reflexivity.
+    - left; reflexivity.
+    - left; reflexivity.
+    - intros e He _ _. cbn in He. injection He as <-. split; [unfold int32_ok; cbn; split; discriminate|]. left. reflexivity. }
+  split; apply H.
 Qed.
